@@ -42,6 +42,7 @@ type Exec struct {
 	visitedAnchors map[string]bool
 	subOf map[string]subInfo
 	atHits map[*Clause]int
+	retVal *Val
 }
 
 type subInfo struct{ parent, lo, hi string }
